@@ -1,4 +1,5 @@
 import CloakModel.Model.ClientConfig
+import CloakModel.Lemmas.Ssv
 
 /-! # C20 — Client configuration is honoured exactly as documented, in both input syntaxes
 
@@ -12,7 +13,7 @@ import CloakModel.Model.ClientConfig
   **Fails on the pinned tree** (`remote.KeepAlive = remote.KeepAlive * time.Second`), see `pinned_keepalive`.
 * `c20_reject` — each missing mandatory field, a public key that is not 32 bytes, an unknown method ⇒ error.
   (`processRaw` is total and has no panic outcome.)
-* `c20_ssv_*` — the option-string front end. -/
+* `c20_ssv_partial` — the option-string front end `ssvToJson` on the escaping alphabet plugin hosts use. -/
 set_option linter.unusedSimpArgs false
 set_option linter.unusedVariables false
 
@@ -333,8 +334,211 @@ def pinnedKeepAliveOnVal (_rawKeepAlive remoteKeepAlive : Int) : Int := remoteKe
 keep-alive), not 5 s: the documented statement is false for the pinned right-hand side -/
 theorem pinned_keepalive : pinnedKeepAliveOnVal 5 0 = 0 ∧ pinnedKeepAliveOnVal 5 0 ≠ 5 * Spec.second := by decide
 
+/-! ## 6. The option-string syntax -/
+
+/-- a logical option: key and value as they are meant (before any escaping) -/
+structure Opt where
+  key : Str
+  value : Str
+
+/-- what plugin hosts do to a value: every `=` becomes `\=` -/
+def escEqs (v : Str) : Str := v.flatMap fun c => if c = '=' then ['\\', '='] else [c]
+
+/-- the option string: `key=escaped value;` for every option -/
+def renderSsv (opts : List Opt) : Str := opts.flatMap fun o => o.key ++ '=' :: escEqs o.value ++ [';']
+
+/-- keys documented as numbers / booleans are written without quotes -/
+def unquotedKeys : List String := ["NumConn", "StreamTimeout", "KeepAlive", "UDP"]
+
+def jsonValue (key value : Str) : Str :=
+  if isPrefix "AlternativeNames".toList key then '[' :: intercalateStr [','] ((splitOn ',' value).map quote) ++ [']']
+  else if unquotedKeys.contains (String.ofList key) then value
+  else quote value
+
+def jsonMember (o : Opt) : Str := quote o.key ++ ':' :: jsonValue o.key o.value
+
+/-- the same configuration as a JSON object text, members in the same order -/
+def renderJson (opts : List Opt) : Str := '{' :: intercalateStr [','] (opts.map jsonMember) ++ ['}']
+
+/-- the restricted alphabet: keys without `=`, `;`, `\`; values without `;`, `\` (they may contain `=`) -/
+def Opt.Plain (o : Opt) : Prop :=
+  '=' ∉ o.key ∧ ';' ∉ o.key ∧ '\\' ∉ o.key ∧ ';' ∉ o.value ∧ '\\' ∉ o.value
+
+theorem gen_ssv : Gen.ClientCfg.ssvUnquoted = unquotedKeys ∧
+    Gen.ClientCfg.ssvUnescape = [("\\\\", "\\"), ("\\=", "="), ("\\;", ";")] := by decide
+
+theorem unescape_eq (s : Str) :
+    unescape s = rep2 '\\' ';' [';'] (rep2 '\\' '=' ['='] (rep2 '\\' '\\' ['\\'] s)) := by
+  unfold unescape
+  rw [gen_ssv.2]
+  simp only [List.foldl]
+  rw [show ("\\\\" : String).toList = ['\\', '\\'] by decide, show ("\\" : String).toList = ['\\'] by decide,
+    show ("\\=" : String).toList = ['\\', '='] by decide, show ("=" : String).toList = ['='] by decide,
+    show ("\\;" : String).toList = ['\\', ';'] by decide, show (";" : String).toList = [';'] by decide]
+  rw [replaceAll_two, replaceAll_two, replaceAll_two]
+
+def toks (o : Opt) : List Tok :=
+  o.key.map Tok.plain ++ [Tok.plain '='] ++ o.value.map (fun c => if c = '=' then Tok.escEq else Tok.plain c) ++ [Tok.plain ';']
+
+theorem flatMap_render_plain (s : Str) : (s.map Tok.plain).flatMap Tok.render = s := by
+  induction s with
+  | nil => rfl
+  | cons c r ih => simp [Tok.render, ih]
+
+theorem flatMap_plainOf_plain (s : Str) : (s.map Tok.plain).flatMap Tok.plainOf = s := by
+  induction s with
+  | nil => rfl
+  | cons c r ih => simp [Tok.plainOf, ih]
+
+theorem render_value (v : Str) :
+    (v.map (fun c => if c = '=' then Tok.escEq else Tok.plain c)).flatMap Tok.render = escEqs v := by
+  induction v with
+  | nil => rfl
+  | cons c r ih =>
+    simp only [List.map_cons, List.flatMap_cons, ih, escEqs]
+    by_cases h : c = '=' <;> simp [h, Tok.render]
+
+theorem plainOf_value (v : Str) :
+    (v.map (fun c => if c = '=' then Tok.escEq else Tok.plain c)).flatMap Tok.plainOf = v := by
+  induction v with
+  | nil => rfl
+  | cons c r ih =>
+    simp only [List.map_cons, List.flatMap_cons, ih]
+    by_cases h : c = '=' <;> simp [h, Tok.plainOf]
+
+theorem render_toks (o : Opt) : (toks o).flatMap Tok.render = o.key ++ '=' :: escEqs o.value ++ [';'] := by
+  simp [toks, List.flatMap_append, flatMap_render_plain, render_value, Tok.render]
+
+theorem plainOf_toks (o : Opt) : (toks o).flatMap Tok.plainOf = o.key ++ '=' :: o.value ++ [';'] := by
+  simp [toks, List.flatMap_append, flatMap_plainOf_plain, plainOf_value, Tok.plainOf]
+
+theorem toks_ok (o : Opt) (h : o.Plain) : ∀ t ∈ toks o, t.ok := by
+  obtain ⟨_, _, hk, _, hv⟩ := h
+  intro t ht
+  simp only [toks, List.mem_append, List.mem_map, List.mem_singleton] at ht
+  rcases ht with ((⟨c, hc, rfl⟩ | rfl) | ⟨c, hc, rfl⟩) | rfl
+  · intro e; exact hk (e ▸ hc)
+  · show '=' ≠ '\\'; decide
+  · by_cases e : c = '='
+    · simp [e, Tok.ok]
+    · simp only [e, if_false]; intro e2; exact hv (e2 ▸ hc)
+  · show ';' ≠ '\\'; decide
+
+/-- after the three passes the escaped rendering is the plain one -/
+theorem unescape_render (opts : List Opt) (h : ∀ o ∈ opts, o.Plain) :
+    unescape (renderSsv opts) = opts.flatMap fun o => o.key ++ '=' :: o.value ++ [';'] := by
+  have e1 : renderSsv opts = (opts.flatMap toks).flatMap Tok.render := by
+    simp only [renderSsv, List.flatMap_assoc, render_toks]
+  have e2 : (opts.flatMap fun o => o.key ++ '=' :: o.value ++ [';']) = (opts.flatMap toks).flatMap Tok.plainOf := by
+    simp only [List.flatMap_assoc, plainOf_toks]
+  have hok : ∀ t ∈ opts.flatMap toks, t.ok := by
+    intro t ht
+    simp only [List.mem_flatMap] at ht
+    obtain ⟨o, ho, hto⟩ := ht
+    exact toks_ok o (h o ho) t hto
+  rw [unescape_eq, e1, rep_bsbs _ hok, rep_bseq _ hok, rep2_no_first _ _ _ _ (plainOf_no_bs _ hok), e2]
+
+theorem split_lines (opts : List Opt) (h : ∀ o ∈ opts, o.Plain) :
+    splitOn ';' (opts.flatMap fun o => o.key ++ '=' :: o.value ++ [';']) =
+      opts.map (fun o => o.key ++ '=' :: o.value) ++ [[]] := by
+  induction opts with
+  | nil => simp [splitOn]
+  | cons o r ih =>
+    obtain ⟨_, hk, _, hv, _⟩ := h o (by simp)
+    have hr := ih (fun x hx => h x (List.mem_cons_of_mem _ hx))
+    simp only [List.flatMap_cons, List.map_cons, List.cons_append]
+    have : (o.key ++ '=' :: o.value ++ [';']) ++ (r.flatMap fun o => o.key ++ '=' :: o.value ++ [';']) =
+        (o.key ++ '=' :: o.value) ++ ';' :: (r.flatMap fun o => o.key ++ '=' :: o.value ++ [';']) := by simp
+    rw [this, splitOn_append_sep _ _ _ (by
+      simp only [List.mem_append, List.mem_cons, not_or]
+      exact ⟨hk, by decide, hv⟩), hr]
+
+theorem members_lines (opts : List Opt) (h : ∀ o ∈ opts, o.Plain) :
+    members (opts.map (fun o => o.key ++ '=' :: o.value) ++ [[]]) = opts.flatMap fun o => member o.key o.value := by
+  induction opts with
+  | nil => simp [members]
+  | cons o r ih =>
+    obtain ⟨hk, _⟩ := h o (by simp)
+    have hr := ih (fun x hx => h x (List.mem_cons_of_mem _ hx))
+    have hne : o.key ++ '=' :: o.value ≠ [] := by simp
+    simp only [List.map_cons, List.cons_append, members, hne, if_false, splitFirst_append_sep _ _ _ hk, List.flatMap_cons]
+    rw [← hr]
+
+theorem splitOn_no_sep (sep : Char) (s : Str) (h : sep ∉ s) : splitOn sep s = [s] := by
+  induction s with
+  | nil => simp [splitOn]
+  | cons c r ih =>
+    simp only [List.mem_cons, not_or] at h
+    have hc : ¬ c = sep := fun e => h.1 e.symm
+    simp [splitOn, hc, ih h.2]
+
+theorem member_eq (o : Opt) : member o.key o.value = jsonMember o ++ [','] := by
+  unfold member jsonMember jsonValue
+  rw [gen_ssv.1]
+  by_cases h1 : isPrefix "AlternativeNames".toList o.key = true
+  · simp only [h1, if_true]
+    by_cases h2 : ',' ∈ o.value
+    · have : o.value.contains ',' = true := by simpa using h2
+      simp only [this, if_true]
+      simp [List.append_assoc]
+    · have : o.value.contains ',' = false := by simpa using h2
+      simp only [this, splitOn_no_sep _ _ h2, List.map_cons, List.map_nil, intercalateStr]
+      simp [List.append_assoc]
+  · simp only [h1, if_false, Bool.false_eq_true]
+    by_cases h3 : unquotedKeys.contains (String.ofList o.key) = true
+    · simp only [h3, if_true]; simp [List.append_assoc]
+    · simp only [h3, if_false]; simp [List.append_assoc]
+
+theorem dropLast_members (l : List Str) (h : l ≠ []) :
+    (l.flatMap fun m => m ++ [',']).dropLast = intercalateStr [','] l := by
+  induction l with
+  | nil => exact absurd rfl h
+  | cons x r ih =>
+    cases r with
+    | nil => simp [intercalateStr]
+    | cons y r' =>
+      have hr := ih (by simp)
+      simp only [List.flatMap_cons] at hr ⊢
+      rw [intercalateStr]
+      have hne : (y ++ [',']) ++ (r'.flatMap fun m => m ++ [',']) ≠ [] := by simp
+      rw [List.dropLast_append_of_ne_nil hne, hr]
+      try simp [List.append_assoc]
+
+/-- **C20 (syntax equivalence, restricted alphabet).** For a non-empty list of options whose keys contain no
+`=`, `;`, `\\` and whose values contain no `;`, `\\` (values may contain `=`, which plugin hosts escape as `\\=`,
+as in base64 UIDs and keys), converting the option string yields exactly the JSON object text with the same
+members in the same order: numbers/booleans unquoted, `AlternativeNames` as an array split at commas,
+everything else a string.  Outside this alphabet (`\;`, `"`, raw `\\`) the correspondence with JSON depends on
+`encoding/json` and is exercised by T2 only. -/
+theorem c20_ssv_partial (opts : List Opt) (hne : opts ≠ []) (h : ∀ o ∈ opts, o.Plain) :
+    ssvToJson (renderSsv opts) = renderJson opts := by
+  unfold ssvToJson renderJson
+  simp only [unescape_render opts h, split_lines opts h, members_lines opts h]
+  have hm : (opts.flatMap fun o => member o.key o.value) = (opts.map jsonMember).flatMap fun m => m ++ [','] := by
+    simp only [List.flatMap_map]; congr 1; funext o; exact member_eq o
+  rw [hm]
+  have hne' : opts.map jsonMember ≠ [] := by simpa using hne
+  have hne2 : ((opts.map jsonMember).flatMap fun m => m ++ [',']) ≠ [] := by
+    cases opts with
+    | nil => exact absurd rfl hne
+    | cons o r => simp
+  rw [show ('{' :: ((opts.map jsonMember).flatMap fun m => m ++ [','])) = ['{'] ++ ((opts.map jsonMember).flatMap fun m => m ++ [',']) by rfl,
+    List.dropLast_append_of_ne_nil hne2, dropLast_members _ hne']
+  simp
+
+/-- non-vacuity: the UID/NumConn/AlternativeNames example satisfies the hypotheses and both sides are the expected text -/
+example :
+    let opts : List Opt := [⟨"UID".toList, "aGk=".toList⟩, ⟨"NumConn".toList, "4".toList⟩, ⟨"AlternativeNames".toList, "a,,b".toList⟩]
+    (∀ o ∈ opts, o.Plain) ∧ String.ofList (renderSsv opts) = "UID=aGk\\=;NumConn=4;AlternativeNames=a,,b;" ∧
+    String.ofList (renderJson opts) = "{\"UID\":\"aGk=\",\"NumConn\":4,\"AlternativeNames\":[\"a\",\"\",\"b\"]}" := by
+  refine ⟨?_, by decide, by decide⟩
+  intro o ho
+  simp only [List.mem_cons, List.mem_nil_iff, or_false] at ho
+  rcases ho with rfl | rfl | rfl <;> (unfold Opt.Plain; decide)
+
 end C20
 
 #print axioms C20.c20_doc
 #print axioms C20.c20_reject
+#print axioms C20.c20_ssv_partial
 #print axioms C20.gen_structure
